@@ -159,67 +159,72 @@ let res_of = function
 
 let shown_of (v : val0) : bytes = bytes_of_string ("[default: " ^ string_of_val v ^ "]")
 
-let rec parser_of_sexp (s : sexp) : parser0 =
+let rec cparser_of_sexp (s : sexp) : cparser =
   match s with
-  | L [A "flag"; nm; v] -> PFlag (named_of_sexp nm, val_of_sexp v, None)
-  | L [A "flag"; nm; v; a] -> PFlag (named_of_sexp nm, val_of_sexp v, Some (val_of_sexp a))
-  | L [A "arg"; nm; mv; ty] -> PArg (named_of_sexp nm, hx mv, ty_of ty, false)
-  | L [A "arg"; nm; mv; ty; A "adjacent"] -> PArg (named_of_sexp nm, hx mv, ty_of ty, true)
+  | L [A "flag"; nm; v] -> XFlag (named_of_sexp nm, val_of_sexp v, None)
+  | L [A "flag"; nm; v; a] -> XFlag (named_of_sexp nm, val_of_sexp v, Some (val_of_sexp a))
+  | L [A "arg"; nm; mv; ty] -> XArg (named_of_sexp nm, hx mv, ty_of ty, false)
+  | L [A "arg"; nm; mv; ty; A "adjacent"] -> XArg (named_of_sexp nm, hx mv, ty_of ty, true)
   | L (A "pos" :: mv :: ty :: A st :: rest) ->
     let pos = match st with "free" -> Unrestricted | "strict" -> Strict | "nonstrict" -> NonStrict | _ -> failwith "bad strictness" in
     let help = match rest with [L [A "h"; h]] -> Some (text_doc (hx h)) | [] -> None | _ -> failwith "bad pos" in
-    PPos (hx mv, ty_of ty, pos, help)
+    XPos (hx mv, ty_of ty, pos, help)
   | L (A "anyp" :: mv :: k :: txt :: rest) ->
     let anywhere = (rest = [A "anywhere"]) in
     let kk = menu_id k and t = hx txt in
-    PAny ([TText (SMetavar, hx mv)], None, (fun os -> any_menu kk t os), anywhere)
+    XAny ([TText (SMetavar, hx mv)], None, (fun os -> any_menu kk t os), anywhere)
   | L (A "cmd" :: name :: L (A "aliases" :: al) :: L (A "shorts" :: sh) :: rest) ->
     let adjacent = List.mem (L [A "adjacent"]) rest in
     let help = List.fold_left (fun acc x -> match x with L [A "h"; h] -> Some (text_doc (hx h)) | _ -> acc) None rest in
     let sub = match List.filter (function L (A "options" :: _) -> true | _ -> false) rest with
-      | [o] -> options_of_sexp o | _ -> failwith "cmd needs one options" in
+      | [o] -> coptions_of_sexp o | _ -> failwith "cmd needs one options" in
     (* command(): help defaults to the first line of the inner descr; the generator always
        passes an explicit help when a descr is present, see gen/ *)
-    PCmd (hx name, List.map hx al, List.map (function A cp -> n_of_int (int_of_string cp) | _ -> failwith "bad short") sh,
+    XCmd (hx name, List.map hx al, List.map (function A cp -> n_of_int (int_of_string cp) | _ -> failwith "bad short") sh,
           help, adjacent, sub)
-  | L (A "con" :: ps) -> PCon (plist_of ps)
-  | L (A "adj" :: ps) -> PAdj (plist_of ps)
-  | L (A "alt" :: p :: ps) -> List.fold_left (fun acc q -> POr (acc, parser_of_sexp q)) (parser_of_sexp p) ps
-  | L [A "optional"; p] -> POptional (parser_of_sexp p, false)
-  | L [A "optional-catch"; p] -> POptional (parser_of_sexp p, true)
-  | L [A "many"; p] -> PMany (parser_of_sexp p, false)
-  | L [A "many-catch"; p] -> PMany (parser_of_sexp p, true)
-  | L [A "some"; p; m] -> PSome (parser_of_sexp p, hx m, false)
-  | L [A "some-catch"; p; m] -> PSome (parser_of_sexp p, hx m, true)
-  | L [A "collect"; p] -> PCollect (parser_of_sexp p, false)
-  | L [A "collect-catch"; p] -> PCollect (parser_of_sexp p, true)
-  | L [A "count"; p] -> PCount (parser_of_sexp p)
-  | L [A "last"; p] -> PLast (parser_of_sexp p)
-  | L [A "fallback"; p; v] -> PFallback (parser_of_sexp p, val_of_sexp v, [])
-  | L [A "fallback"; p; v; A "show"] -> let vv = val_of_sexp v in PFallback (parser_of_sexp p, vv, shown_of vv)
-  | L [A "fallback-with"; p; r] -> PFallbackWith (parser_of_sexp p, res_of r, [])
+  | L (A "con" :: ps) -> XCon (cplist_of ps)
+  | L (A "adj" :: ps) -> XAdj (cplist_of ps)
+  | L (A "alt" :: p :: ps) -> List.fold_left (fun acc q -> XOr (acc, cparser_of_sexp q)) (cparser_of_sexp p) ps
+  | L [A "optional"; p] -> XOptional (cparser_of_sexp p, false)
+  | L [A "optional-catch"; p] -> XOptional (cparser_of_sexp p, true)
+  | L [A "many"; p] -> XMany (cparser_of_sexp p, false)
+  | L [A "many-catch"; p] -> XMany (cparser_of_sexp p, true)
+  | L [A "some"; p; m] -> XSome (cparser_of_sexp p, hx m, false)
+  | L [A "some-catch"; p; m] -> XSome (cparser_of_sexp p, hx m, true)
+  | L [A "collect"; p] -> XCollect (cparser_of_sexp p, false)
+  | L [A "collect-catch"; p] -> XCollect (cparser_of_sexp p, true)
+  | L [A "count"; p] -> XCount (cparser_of_sexp p)
+  | L [A "last"; p] -> XLast (cparser_of_sexp p)
+  | L [A "fallback"; p; v] -> XFallback (cparser_of_sexp p, val_of_sexp v, [])
+  | L [A "fallback"; p; v; A "show"] -> let vv = val_of_sexp v in XFallback (cparser_of_sexp p, vv, shown_of vv)
+  | L [A "fallback-with"; p; r] -> XFallbackWith (cparser_of_sexp p, res_of r, [])
   | L [A "fallback-with"; p; r; A "show"] ->
     let rr = res_of r in
-    PFallbackWith (parser_of_sexp p, rr, (match rr with Inl v -> shown_of v | Inr _ -> []))
-  | L [A "guard"; p; k; m] -> let kk = menu_id k in PGuard (parser_of_sexp p, (fun v -> guard_menu kk v), hx m)
-  | L [A "parse"; p; k; t] -> let kk = menu_id k and tt = hx t in PParse (parser_of_sexp p, (fun v -> parse_menu kk tt v))
-  | L [A "map"; p; k] -> let kk = menu_id k in PMap (parser_of_sexp p, (fun v -> map_menu kk v))
-  | L [A "hide"; p] -> PHide (parser_of_sexp p)
-  | L [A "hide-usage"; p] -> PUsage (parser_of_sexp p, [])
-  | L [A "usage"; p; d] -> PUsage (parser_of_sexp p, text_doc (hx d))
-  | L [A "group-help"; p; d] -> PGroupHelp (parser_of_sexp p, text_doc (hx d))
-  | L [A "pure"; v] -> PPure (val_of_sexp v)
-  | L [A "pure-with"; r] -> PPureWith (res_of r)
-  | L [A "fail"; m] -> PFail (hx m)
-  | L [A "boxed"; p] -> PBoxed (parser_of_sexp p)
-  | L [A "complete"; p; _] -> parser_of_sexp p          (* completion hooks do not change parsing *)
-  | L [A "complete-shell"; p; _] -> parser_of_sexp p
+    XFallbackWith (cparser_of_sexp p, rr, (match rr with Inl v -> shown_of v | Inr _ -> []))
+  | L [A "guard"; p; k; m] -> let kk = menu_id k in XGuard (cparser_of_sexp p, (fun v -> guard_menu kk v), hx m)
+  | L [A "parse"; p; k; t] -> let kk = menu_id k and tt = hx t in XParse (cparser_of_sexp p, (fun v -> parse_menu kk tt v))
+  | L [A "map"; p; k] -> let kk = menu_id k in XMap (cparser_of_sexp p, (fun v -> map_menu kk v))
+  | L [A "hide"; p] -> XHide (cparser_of_sexp p)
+  | L [A "hide-usage"; p] -> XUsage (cparser_of_sexp p, [])
+  | L [A "usage"; p; d] -> XUsage (cparser_of_sexp p, text_doc (hx d))
+  | L [A "group-help"; p; d] -> XGroupHelp (cparser_of_sexp p, text_doc (hx d))
+  | L [A "pure"; v] -> XPure (val_of_sexp v)
+  | L [A "pure-with"; r] -> XPureWith (res_of r)
+  | L [A "fail"; m] -> XFail (hx m)
+  | L [A "boxed"; p] -> XBoxed (cparser_of_sexp p)
+  | L [A "complete"; p; k] -> let kk = menu_id k in XComplete (cparser_of_sexp p, (fun v -> completer_menu kk v), None)
+  | L [A "complete-shell"; p; A kind] ->
+    let cs s = (match utf8_decode (bytes_of_string s) with Some c -> c | None -> []) in
+    let op = match kind with
+      | "file" -> OpFile None | "filemask" -> OpFile (Some (cs "*.rs")) | "dir" -> OpDir None
+      | "raw" -> OpRaw (cs "_b", cs "_z", cs "_f", cs "_e") | _ -> OpNothing in
+    XCompShell (cparser_of_sexp p, op)
   | _ -> failwith "bad parser"
 
-and plist_of (ps : sexp list) : plist =
-  match ps with [] -> PNil | p :: t -> PCons (parser_of_sexp p, plist_of t)
+and cplist_of (ps : sexp list) : cplist =
+  match ps with [] -> XNil | p :: t -> XCons (cparser_of_sexp p, cplist_of t)
 
-and options_of_sexp (s : sexp) : oparser =
+and coptions_of_sexp (s : sexp) : coparser =
   match s with
   | L (A "options" :: p :: fields) ->
     let i = ref default_info in
@@ -236,8 +241,12 @@ and options_of_sexp (s : sexp) : oparser =
         | L [A "fallback-to-usage"] -> i := { d with i_help_if_no_args = true }
         | L [A "max-width"; A w] -> i := { d with i_max_width = n_of_int (int_of_string w) }
         | _ -> failwith "bad options field") fields;
-    Options (parser_of_sexp p, !i)
+    XOptions (cparser_of_sexp p, !i)
   | _ -> failwith "bad options"
+
+(* the parser of a build without completers: the wrappers erased (Model/CompEval.v erase) *)
+let parser_of_sexp (s : sexp) : parser0 = erase (cparser_of_sexp s)
+let options_of_sexp (s : sexp) : oparser = erase_o (coptions_of_sexp s)
 
 (* ------------------------------------------------------------------ outcome printing *)
 let doc_text (d : doc) : bytes =
@@ -601,6 +610,11 @@ let run_case (line : string) =
              let (k, t) = msg_kind_text m in
              Printf.printf "%s\tSTDERR\t%s\t%s\t%s\n" id k (hex_of_bytes t) text
            | _ -> print_outcome id (outcome_of r))
+        | [A "comp"; A rev] ->
+          let co = coptions_of_sexp opts in
+          (match c_run_inner feat env co name argv (Some (nat_of_int (int_of_string rev))) with
+           | OutCompletion t -> Printf.printf "%s\tCOMP\t%s\n" id (hex_of_bytes t)
+           | other -> print_outcome id other)
         | [A "tokens"] ->
           let (st, amb) = initial_state o name argv in
           let show = function
